@@ -1,3 +1,39 @@
 //! Safe-Rust verification hooks for this module (accessors/wrappers only; no logic).
 #![allow(unused_imports, dead_code)]
 use super::*;
+
+// ---- C26/C27 (np_keyset_h): raw constructors / getters / thin wrappers for the cookie key set.
+pub fn keyset_from_parts(keys: Vec<AesSivCmac512>, id_offset: u32, primary: u32) -> KeySet {
+    KeySet { keys, id_offset, primary }
+}
+pub fn keyset_len(k: &KeySet) -> usize {
+    k.keys.len()
+}
+pub fn keyset_id_offset(k: &KeySet) -> u32 {
+    k.id_offset
+}
+pub fn keyset_primary(k: &KeySet) -> u32 {
+    k.primary
+}
+pub fn keyset_key_bytes(k: &KeySet, i: usize) -> &[u8] {
+    k.keys[i].key_bytes()
+}
+pub fn provider_from_parts(current: KeySet, history: usize) -> KeySetProvider {
+    KeySetProvider { current: Arc::new(current), history }
+}
+pub fn provider_history(p: &KeySetProvider) -> usize {
+    p.history
+}
+pub fn keyset_encode_cookie(k: &KeySet, cookie: &DecodedServerCookie) -> Vec<u8> {
+    k.encode_cookie(cookie)
+}
+pub fn keyset_decode_cookie(k: &KeySet, cookie: &[u8]) -> Result<DecodedServerCookie, DecryptError> {
+    k.decode_cookie(cookie)
+}
+/// `algorithm` is the IANA AEAD id (15 = AES-SIV-CMAC-256, 17 = AES-SIV-CMAC-512).
+pub fn decoded_cookie_from_parts(algorithm: u16, s2c: Box<dyn Cipher>, c2s: Box<dyn Cipher>) -> DecodedServerCookie {
+    DecodedServerCookie { algorithm: AeadAlgorithm::from(algorithm), s2c, c2s }
+}
+pub fn decoded_cookie_algorithm(c: &DecodedServerCookie) -> u16 {
+    u16::from(c.algorithm)
+}
